@@ -217,14 +217,20 @@ struct Case {
 }
 
 fn run_view(bytes: &[u8], view: &str, filter: Option<Filter>, styled: bool) -> Result<String, String> {
+    // the styled run reads the input from stdin, the unstyled one from a file
+    let stdin = styled;
     let scratch = Scratch::new("c19");
-    let mut a = vec![scratch.file("in.raw", bytes).display().to_string()];
+    let mut a = if stdin { vec![] } else { vec![scratch.file("in.raw", bytes).display().to_string()] };
     a.extend(filter_args(filter));
     a.extend(["view".to_string(), view.to_string()]);
     if !styled {
         a.push("-d".into());
     }
-    let r = Run::new(&a).cwd(&scratch.path).run();
+    let mut run = Run::new(&a).cwd(&scratch.path);
+    if stdin {
+        run = run.stdin(bytes);
+    }
+    let r = run.run();
     if r.crashed() || r.status != Some(0) {
         return Err(format!("exit {:?} signal {:?}: {}", r.status, r.signal, r.stderr_str().chars().take(300).collect::<String>()));
     }
@@ -354,7 +360,7 @@ pub fn run(tier: Tier) -> i32 {
     rep.cov("evaluations", json!(cases.len() * 2));
     rep.cov("distinct_nontrivial", json!(cases.len()));
     rep.cov("exhaustive", json!(true));
-    rep.cov("rule", json!("alphabet streams (8 RDH variants: versions 6/7, stop 0/1, 7 layer/stave pairs, 8 link ids, 8 trigger kinds, 8 detector-field patterns, orbit / BC extremes; words: 2 IHW, 32 TDH flag/trigger combinations, 24 TDT and 12 DDW0 lane-fault patterns, CDW, 9 data word ids) x data formats 0 / 2 / alternating within one batch x 2 (6) value variants x 3 views x 4 filters x {styled, -d}; all 16 lane-status nibbles of the detector field (with and without the upper status bits) x 3 views; 6 witnesses x 3 views with ground-truth word types. Every row is compared token by token with the model's decode at that offset"));
+    rep.cov("rule", json!("alphabet streams (8 RDH variants: versions 6/7, stop 0/1, 7 layer/stave pairs, 8 link ids, 8 trigger kinds, 8 detector-field patterns, orbit / BC extremes; words: 2 IHW, 32 TDH flag/trigger combinations, 24 TDT and 12 DDW0 lane-fault patterns, CDW, 9 data word ids) x data formats 0 / 2 / alternating within one batch x 2 (6) value variants x 3 views x 4 filters x {styled from stdin, -d from a file}; all 16 lane-status nibbles of the detector field (with and without the upper status bits) x 3 views; 6 witnesses x 3 views with ground-truth word types. Every row is compared token by token with the model's decode at that offset"));
     rep.sample(json!({"row": "4A: TDH [03 1A 00 00 75 D5 7D 0B 00 E8] SOC Data! 192796021_ 0"}));
     rep.assume("spacing is normalised (tokens compared); the colour / style sequences are stripped, not judged");
     rep.finish()
